@@ -296,6 +296,7 @@ def run(rep, facts, tier):
     # R02.24 (mutation triage: every one-token mutant of the reader selection for submessages with reader id UNKNOWN survived all checks)
     from rules import dispatch
     dispatch.run_rule(rep, fx, 'R02.24', 'default', floor=1)
+    dispatch.run_kinds(rep, fx, 'R02.25', 'default')
 
 
 
